@@ -8,6 +8,7 @@ import execreplay
 
 class SubRun:
     counter = 0
+    counter_c = 0
 
     def __init__(self, world, case):
         self.world = world
@@ -98,6 +99,24 @@ class SubRun:
         finished = False
         pull = None
         per_event_calls = []
+        # a companion subscription on the SAME document and field: started before, ends while the modelled one is in
+        # progress (after its first action); its own stream delivers exactly one response and then ends
+        companion = None
+        comp_out = []
+        if not case["refused"] and SubRun.counter_c % 2 == 0:
+            cstate = CaseState({})
+            cstate.ctx = {"__cs": cstate}
+
+            async def csource(fn, parent, args, ctx, info):
+                yield {"_id": "CE1", "_typename": "Subscription"}
+            cstate.source = csource
+            companion = eng.subscribe(self.doc.text, operation_name=execreplay.op_name(case), context=cstate.ctx,
+                                      variables=variables_py(case["given"]))
+            try:
+                comp_out.append(self.loop.run(companion.__anext__()))
+            except BaseException as e:
+                comp_out.append({"__raised__": repr(e)})
+        SubRun.counter_c += 1
 
         def settle():
             nonlocal pull, finished
@@ -112,7 +131,17 @@ class SubRun:
                 pull = None
 
         produced = pulled = 0
-        for a in case["actions"]:
+        for ai, a in enumerate(case["actions"]):
+            if companion is not None and ai == 1:
+                # the companion's source is exhausted: its stream ends now
+                try:
+                    self.loop.run(companion.__anext__())
+                    out.append("companion subscription delivered a second response for its single event")
+                except StopAsyncIteration:
+                    pass
+                except BaseException as e:
+                    out.append("companion subscription did not end normally: %r" % (e,))
+                companion = None
             if a == "produce":
                 self.avail += 1
                 produced += 1
@@ -143,6 +172,13 @@ class SubRun:
             self.loop.run(agen.aclose())
         except BaseException:
             pass
+        if companion is not None:
+            try:
+                self.loop.run(companion.aclose())
+            except BaseException:
+                pass
+        if comp_out and (not isinstance(comp_out[0], dict) or "__raised__" in comp_out[0]):
+            out.append("companion subscription's first response: %r" % (comp_out[0],))
         self.world.case = None
         if out:
             return out
